@@ -708,3 +708,99 @@ pub fn selftest() -> Result<usize, String> {
 pub fn unb64_or_empty(s: &str) -> Vec<u8> {
     unb64(s).unwrap_or_default()
 }
+
+// ------------------------------------------------------------------------------------------
+// RFC 6979 deterministic ECDSA over P-384 / SHA-384 (what the v3 specification recommends and
+// paseto-v3 implements): nonce derivation written here from the RFC, signature arithmetic by
+// aws-lc through its test entry point that takes the nonce.
+
+fn rfc6979_k_p384(x: &[u8], h1: &[u8], attempt_limit: usize) -> Vec<Vec<u8>> {
+    use num_bigint_dig::BigUint;
+    let q = crate::curves::p384_n();
+    let int2octets = |v: &BigUint| {
+        let b = v.to_bytes_be();
+        let mut o = vec![0u8; 48 - b.len()];
+        o.extend(b);
+        o
+    };
+    let bits2octets = |b: &[u8]| int2octets(&(BigUint::from_bytes_be(b) % &q));
+    let xo = int2octets(&BigUint::from_bytes_be(x));
+    let ho = bits2octets(h1);
+    let mut v = vec![1u8; 48];
+    let mut k = vec![0u8; 48];
+    k = hmac384(&k, &[&v, &[0u8], &xo, &ho]);
+    v = hmac384(&k, &[&v]);
+    k = hmac384(&k, &[&v, &[1u8], &xo, &ho]);
+    v = hmac384(&k, &[&v]);
+    let mut out = Vec::new();
+    for _ in 0..attempt_limit {
+        v = hmac384(&k, &[&v]);
+        let cand = BigUint::from_bytes_be(&v);
+        if cand >= BigUint::from(1u8) && cand < q {
+            out.push(v.clone());
+        }
+        k = hmac384(&k, &[&v, &[0u8]]);
+        v = hmac384(&k, &[&v]);
+    }
+    out
+}
+
+#[allow(unsafe_code)]
+fn ecdsa_p384_with_nonce(scalar: &[u8], digest: &[u8], nonce: &[u8]) -> Option<(Vec<u8>, Vec<u8>)> {
+    use aws_lc_sys::*;
+    unsafe {
+        let key = EC_KEY_new_by_curve_name(NID_secp384r1);
+        if key.is_null() {
+            return None;
+        }
+        let mut result = None;
+        let bn = BN_bin2bn(scalar.as_ptr(), scalar.len(), std::ptr::null_mut());
+        let group = EC_KEY_get0_group(key);
+        let pt = EC_POINT_new(group);
+        if !bn.is_null() && !pt.is_null() && EC_POINT_mul(group, pt, bn, std::ptr::null(), std::ptr::null(), std::ptr::null_mut()) == 1 && EC_KEY_set_private_key(key, bn) == 1 && EC_KEY_set_public_key(key, pt) == 1 {
+            let sig = ECDSA_sign_with_nonce_and_leak_private_key_for_testing(digest.as_ptr(), digest.len(), key, nonce.as_ptr(), nonce.len());
+            if !sig.is_null() {
+                let mut r: *const BIGNUM = std::ptr::null();
+                let mut s: *const BIGNUM = std::ptr::null();
+                ECDSA_SIG_get0(sig, &mut r, &mut s);
+                let mut rb = vec![0u8; 48];
+                let mut sb = vec![0u8; 48];
+                if BN_bn2bin_padded(rb.as_mut_ptr(), 48, r) == 1 && BN_bn2bin_padded(sb.as_mut_ptr(), 48, s) == 1 {
+                    result = Some((rb, sb));
+                }
+                ECDSA_SIG_free(sig);
+            }
+        }
+        if !pt.is_null() {
+            EC_POINT_free(pt);
+        }
+        if !bn.is_null() {
+            BN_free(bn);
+        }
+        EC_KEY_free(key);
+        result
+    }
+}
+
+/// The v3.public token RFC 6979 + low-s normalisation prescribes (byte exact).
+pub fn v3_public_deterministic(secret_raw: &[u8], m: &[u8], f: &[u8], i: &[u8]) -> Option<String> {
+    use num_bigint_dig::BigUint;
+    let (_, comp) = p384_public_from_scalar(secret_raw)?;
+    let m2 = pae(&[&comp, b"v3.public.", m, f, i]);
+    let h1 = sha384(&[&m2]);
+    let k = rfc6979_k_p384(secret_raw, &h1, 4).into_iter().next()?;
+    let (r, s) = ecdsa_p384_with_nonce(secret_raw, &h1, &k)?;
+    let n = crate::curves::p384_n();
+    let sv = BigUint::from_bytes_be(&s);
+    let s_low = if sv > (&n >> 1) { &n - &sv } else { sv };
+    let sb = s_low.to_bytes_be();
+    let mut s48 = vec![0u8; 48 - sb.len()];
+    s48.extend(sb);
+    let payload = [m, &r, &s48].concat();
+    let mut t = format!("v3.public.{}", b64(&payload));
+    if !f.is_empty() {
+        t.push('.');
+        t.push_str(&b64(f));
+    }
+    Some(t)
+}
